@@ -4,7 +4,7 @@
 (*       swap calls (the pivot draws of the randomised variant are logged).      *)
 (*   L2: C11: same elements (byte-identical, by id), non-decreasing order,       *)
 (*       every callback argument inside the array, guard bytes around array and  *)
-(*       scratch element intact, only the one scratch element used; search /     *)
+(*       scratch element (also the vector's own allocation) intact; search /     *)
 (*       find / reverse as stated.                                               *)
 EXTENDS SortOps, Json, IOUtils
 CONSTANT Level
@@ -23,7 +23,7 @@ IdsOK(rec) == rec.ids = <<>> \/
                /\ \A k \in 1..Len(rec.ids) : rec.ids[k] \in 1..Len(rec.A) /\ rec.A[rec.ids[k]] = rec.A1[k]
                /\ \A j, k \in 1..Len(rec.ids) : j # k => rec.ids[j] # rec.ids[k])
 C11OK(rec) ==
-    /\ rec.out = "ok" /\ rec.guards /\ rec.scratch
+    /\ rec.out = "ok" /\ rec.guards /\ rec.hguards /\ rec.scratch
     /\ (FullEv(rec) => EvInRange(rec.ev, Len(rec.A)))
     /\ CASE rec.op = "sort" -> IsPerm(rec.A1, rec.A) /\ Sorted(rec.A1) /\ IdsOK(rec)
          [] rec.op = "search" -> rec.A1 = rec.A /\ SearchContract(rec.A, rec.x, rec.ret)
